@@ -83,8 +83,8 @@ def gen_reconnect(tier, rng):
     L = 3 if tier == "quick" else 5
     for k in range(1, L + 1):
         for seq in itertools.product(range(len(outcomes)), repeat=k):
-            if tier != "quick" and k >= 4 and hash(seq) % 5:
-                continue
+            if tier != "quick" and k >= 4 and (hash(seq) % 5 or max(seq) >= 11):
+                continue        # (the two close-code outcomes only in histories of up to three outcomes: keeps the thorough tier near half an hour)
             atts = [dict(outcomes[i]) for i in seq]
             # the run must end: finish with a connection that the server closes
             atts.append({"evs": [FR["text"], FR["close0"]]})
